@@ -12,7 +12,8 @@ From DG Require Import CaseFormat ProtoWireRef ProtoMsg ProtoRelen ProtoEdit.
 Import ListNotations.
 Local Open Scope Z_scope.
 
-Inductive cop := CSet (p : list pstep) (sub : list Z) | CUnset (p : list pstep) | CSetMany (l : list (Z * list Z)).
+(* CSet: path, bytes of the sub node, proto.Type of the sub NODE (the API contract wants the type of the addressed element) *)
+Inductive cop := CSet (p : list pstep) (sub : list Z) (nk : Z) | CUnset (p : list pstep) | CSetMany (l : list (Z * list Z)).
 
 (* ---------------------------------------------------------------- errors *)
 (* ENode c: an error that is a generic.Node (c = 1 errNotFound, 2 other); EPlain: any other error value
@@ -506,10 +507,9 @@ Definition set_not_found (parent : Z) (st : pstep) (nt : Z) (src : list Z) (desc
   else None.
 
 (* SetByPath(sub, path...) on the root value; the sub node has the type of the addressed element *)
-Definition coded_set (S : schema) (root : list Z) (buf : list Z) (p : list pstep) (sub : list Z) : cres :=
+Definition coded_set_t (S : schema) (root : list Z) (buf : list Z) (p : list pstep) (sub : list Z) (nt : Z) : cres :=
   match path_type_lax S LSingular (TMsg root) p, last_step p with
   | Some (LSingular, t), Some lst =>
-    let nt := td_type (td_base t) in
     let finish (s e : Z) (x : list Z) (addr : list Z) (ex : bool) :=
       let b1 := splice buf (Z.to_nat s) (Z.to_nat e) x in
       let packed := match lst with PIndex _ => type_packed nt | _ => false end in
@@ -542,6 +542,13 @@ Definition coded_set (S : schema) (root : list Z) (buf : list Z) (p : list pstep
     | GUnmodelled => CUnmodelled
     end
   | _, _ => CUnmodelled
+  end.
+
+(* the sub node has the type of the addressed element *)
+Definition coded_set (S : schema) (root : list Z) (buf : list Z) (p : list pstep) (sub : list Z) : cres :=
+  match path_type_lax S LSingular (TMsg root) p with
+  | Some (LSingular, t) => coded_set_t S root buf p sub (td_type (td_base t))
+  | _ => CUnmodelled
   end.
 
 (* ---------------------------------------------------------------- UnsetByPath *)
@@ -738,7 +745,7 @@ Definition coded_set_many (S : schema) (root : list Z) (buf : list Z) (l : list 
 
 Definition coded_op (S : schema) (root : list Z) (buf : list Z) (o : cop) : cres :=
   match o with
-  | CSet p sub => coded_set S root buf p sub
+  | CSet p sub nk => coded_set_t S root buf p sub nk
   | CUnset p => coded_unset S root buf p
   | CSetMany l => coded_set_many S root buf l
   end.
@@ -1209,7 +1216,7 @@ Definition cur_fixes : fixes := all_fixes.
 Definition cres_matches (o : cop) (r : cres) (err ex : Z) (res : list Z) : option bool :=      (* Some coded_ex *)
   match r with
   | CRes e x b =>
-    if (err =? e) && bytes_eqb res b && (match o with CSet _ _ => (err =? 1) || (ex =? Z.b2z x) | _ => true end)
+    if (err =? e) && bytes_eqb res b && (match o with CSet _ _ _ => (err =? 1) || (ex =? Z.b2z x) | _ => true end)
     then Some x else None
   | CPanic => if err =? 2 then Some true else None
   | CUnmodelled => None
@@ -1218,9 +1225,9 @@ Definition cres_matches (o : cop) (r : cres) (err ex : Z) (res : list Z) : optio
 Definition class_of (S : schema) (root : list Z) (o : cop) (coded_ex : bool) : Z :=
   match o with
   | CSetMany _ => 1006
-  | CSet p _ | CUnset p =>
+  | CSet p _ _ | CUnset p =>
     if bad_intkey S LSingular (TMsg root) p then 1012
-    else if (match o with CSet _ _ => true | _ => false end) && negb coded_ex &&
+    else if (match o with CSet _ _ _ => true | _ => false end) && negb coded_ex &&
             match last_step p with Some s => is_key s | None => false end then 1002
     else if first_container p =? PT_KEY then 1001
     else if first_container p =? PT_INDEX then 1011
@@ -1230,7 +1237,7 @@ Definition class_of (S : schema) (root : list Z) (o : cop) (coded_ex : bool) : Z
 Definition regress_class_of (S : schema) (root : list Z) (o : cop) : Z :=
   match o with
   | CSetMany _ => 1006
-  | CSet p _ | CUnset p =>
+  | CSet p _ _ | CUnset p =>
     if bad_intkey S LSingular (TMsg root) p then 1004
     else if existsb is_index p then 1003
     else 1010
